@@ -1129,7 +1129,9 @@ def m_max_shim(*a, **kw):
 
 
 def _any_real(a):
-    return any(isinstance(x, (SymReal, float, F)) for x in a)
+    # (anything symbolic that is not an integer -- reals, and the floating-point values of vf/fp.py --
+    # is compared the way the builtin would)
+    return any(isinstance(x, (SymReal, float, F)) or (isinstance(x, Sym) and not isinstance(x, (SymInt, SymBool))) for x in a)
 
 
 def s_min(*a, **kw):
@@ -1705,6 +1707,9 @@ def explore(
                 )
             except RecursionError as e:  # pragma: no cover
                 res.inconclusive.append({"reason": f"recursion: {e}", "trace": list(c.trace)})
+            except z3.Z3Exception as e:
+                # the engine built a term z3 refuses (sort mismatch, ...): its own limit
+                res.inconclusive.append({"reason": f"engine: z3 refused a term: {e}"[:300], "trace": list(c.trace)})
             except Exception as e:  # noqa: BLE001 - an exception from the real code is an outcome
                 if isinstance(e, expected_exc):
                     pass
